@@ -9,6 +9,7 @@ formula, the Jury inequalities and the documented coefficient map in exact ratio
 cross-multiplied.  Python-side rational arithmetic below is used ONLY to pick inputs / saturate observations so that
 TLC's 32-bit integers cannot overflow - never for a verdict.  Clause (d) (second-order approach) is trace-monitor."""
 import math
+import os
 import random
 from fractions import Fraction as F
 
@@ -22,6 +23,9 @@ ASYM_SCALE, ASYM_THR, ASYM_FLOOR = 10**10, 5 * 10**8, 2000
 
 
 def model_check(ctx):
+    if os.environ.get("VERIF_SKIP_MC") == "1":   # development only (mutation self-tests of the conformance part)
+        ctx.notes.append("model checking of Disp.tla skipped (VERIF_SKIP_MC=1)")
+        return
     ctx.mc("Disp", "MC_Disp_q.cfg" if ctx.quick else "MC_Disp_t.cfg", workers=4,
            label="every Lorentz / Drude / critical-point pole of the rational grid (+ Lorentz+Drude pairs), padded to 3 slots, every test frequency")
     ctx.mc_negative("Disp", "MC_Disp_neg.cfg", workers=2)    # c2 with the wrong sign
@@ -258,7 +262,7 @@ def gen_cases(ctx):
         else:
             skipped += 1
     # (2) seeded random materials: 1-3 poles, isotropic / per-axis / oriented, all code paths
-    nrand = 260 if quick else 4000
+    nrand = 220 if quick else 4000
     made = 0
     while made < nrand:
         kind = rng.choice(["iso", "axes", "axes", "oriented", "oriented", "mixed"])
